@@ -11,3 +11,4 @@ pub mod der;
 pub mod ntlm;
 pub mod cssp;
 pub mod nla;
+pub mod mutate;
